@@ -547,7 +547,10 @@ func sshSanitizeFilePath(sandboxDir, filePath string) (string, error) {
 	if cleaned == cleanedSandbox {
 		return "", fmt.Errorf("path %q resolves to the sandbox directory itself %q", filePath, sandboxDir)
 	}
-	if !strings.HasPrefix(cleaned, cleanedSandbox+string(filepath.Separator)) {
+	// Compare element-wise instead of by string prefix: a prefix test mistakes "../.." for a child of ".." and
+	// rejects everything when the sandbox is "/" or ".".
+	rel, err := filepath.Rel(cleanedSandbox, cleaned)
+	if err != nil || rel == ".." || strings.HasPrefix(rel, ".."+string(filepath.Separator)) {
 		return "", fmt.Errorf("path %q is outside the sandbox directory %q", filePath, sandboxDir)
 	}
 
